@@ -10,11 +10,25 @@ def run_table_case(spec, prop, checker, inputs=None, post=None, fast_sigma=True)
     else:
         el, feed, status, call = cases.build(spec["seed"], prop, spec["i"], spec.get("o"))
     sig = cases.signature(el, status, call)
+    out = dict(violations=[], sig=sig, nontrivial=False, counters={}, sets={})
+    polls = int(spec.get("polls") or 0)
     with harness.patched() as p:
         if call["pi_method"] == "gaussian" and fast_sigma:
             harness.fast_boot_sigma(p)
-        res, exc, client = harness.run_estimates(el, feed, call, want_client=True)
-    out = dict(violations=[], sig=sig, nontrivial=False, counters={}, sets={})
+        client = None
+        if polls >= 2 and inputs is None:
+            # election night on ONE client: the same request is repeated while more and more units report; every
+            # earlier poll is judged too (a result may not depend on what the client answered before)
+            client = harness.client_mod().ModelClient()
+            for feed_t in cases.poll_sequence(spec["seed"], prop, spec["i"], el, feed, status, polls)[:-1]:
+                res_t, exc_t, client = harness.run_estimates(el, feed_t, call, client=client, want_client=True)
+                out["counters"]["earlier_polls"] = out["counters"].get("earlier_polls", 0) + 1
+                if exc_t is None:
+                    vs_t, _ = checker(el, feed_t, call, res_t, client)
+                    for v in vs_t:
+                        v["msg"] = "[earlier poll on the same client] " + v["msg"]
+                    out["violations"] += vs_t[:5]
+        res, exc, client = harness.run_estimates(el, feed, call, client=client, want_client=True)
     cm = harness.client_mod()
     if exc is not None:
         if isinstance(exc, cm.ModelNotEnoughSubunitsException):
@@ -28,7 +42,10 @@ def run_table_case(spec, prop, checker, inputs=None, post=None, fast_sigma=True)
     out["counters"]["runs_completed"] = 1
     out["counters"][f"runs_{call['pi_method']}"] = 1
     vs, cnt = checker(el, feed, call, res, client)
-    out["violations"] = vs
+    if polls >= 2 and vs:
+        for v in vs:
+            v["msg"] = f"[poll {polls} of {polls} on the same client] " + v["msg"]
+    out["violations"] = out["violations"] + vs
     for k, v in cnt.items():
         out["counters"][k] = out["counters"].get(k, 0) + v
     ctx = dict(el=el, feed=feed, status=status, call=call, res=res, client=client)
